@@ -556,6 +556,20 @@ fn make(w: &mut World, op: u8, parent: &H, aux: u16) -> Option<Cand> {
             spec.uncles = vec![u.block.as_uncle()];
             (build(w, &spec, &o), Class::Chain, "uncle:previous-epoch")
         }
+        62 if aux % 2 == 1 => {
+            // the candidate's own sibling (same parent, same number, same epoch and target, never
+            // included): the only rule it breaks is "an uncle is lower than the block that embeds it"
+            let p = w.tree.get(parent);
+            if p.number + 1 >= p.epoch.start_number() + p.epoch.length() {
+                return None;
+            }
+            let mut s2 = w.plain_spec(parent);
+            s2.timestamp += 3 + aux as u64 % 5;
+            s2.message.extend_from_slice(&[0xe2, aux as u8]);
+            let sib = w.tree.build(parent, &s2, &w.opts()).ok()?;
+            spec.uncles = vec![sib.block.as_uncle()];
+            (build(w, &spec, &o), Class::Chain, "uncle:sibling-of-the-block")
+        }
         62 => {
             let u = w.make_uncle(parent, aux)?;
             let bad = ub(&u).number(n).build().as_uncle();
